@@ -45,7 +45,8 @@ def run(rep):
     rep.trusted = ["rustc MIR + resolution", "keyword/punctuation token types and opcode token types carry fixed text", "4 reviewed non-content fields"]
 
     def stop(cf):
-        return (cf.get("impl_of", "") or "").endswith("Spanned::span")
+        # spans and leaf spans locate a node (for comment weaving); reading a field there does not put it into the output
+        return (cf.get("impl_of", "") or "").endswith(("Spanned::span", "LeafSpans::leaf_spans"))
     impls = [f for f in F.fns.values() if (f.get("impl_of", "") or "").endswith("swayfmt::formatter::Format::format") and f.crate == "swayfmt"]
     n_nodes = 0
     for f in sorted(impls, key=lambda x: x.name):
@@ -109,6 +110,17 @@ def run(rep):
                 contained.append((g, t))
     ok3 = bool(full) and not rng
     detail = ""
+    # no adapter that truncates or skips part of the walk
+    trunc = []
+    for fid in cone:
+        g = F.fns.get(fid)
+        if not g:
+            continue
+        for bi, t in g.calls():
+            nm = t.get("rn") or t.get("fp", "")
+            if re.search(r"Iterator>?::(take|take_while|skip|skip_while|step_by|nth|find|find_map|position|last|max|min|max_by_key|min_by_key|next_back)$|Iterator::(take|take_while|skip|skip_while|step_by|nth)$", nm) or \
+                    re.search(r"::(take|take_while|skip|skip_while|step_by)$", t.get("fp", "")):
+                trunc.append((g, t))
     if rng:
         # inclusive / unbounded lower bound is acceptable
         g, t = rng[0]
@@ -118,7 +130,10 @@ def run(rep):
                 kinds.append(s["r"].get("var"))
         ok3 = bool(kinds) and kinds[0] in ("Included", "Unbounded") and not full
         detail = f"lower bound {kinds[:1]}"
-    rep.ob("R3-comment-lookup-visits-every-contained-entry", cb.name, ok3 and bool(contained), cb.file, cb.lo,
+    if trunc:
+        ok3 = False
+        detail = f"the walk is truncated by `{trunc[0][1].get('fp', '').split('::')[-1]}`"
+    rep.ob("R3-comment-lookup-visits-every-contained-entry", cb.name, ok3 and bool(contained), cb.file, trunc[0][1]["ln"] if trunc else cb.lo,
            "comments_between must test every entry with ByteSpan::contained_within: iterate the whole map, or use BTreeMap::range with an inclusive "
            f"(or unbounded) lower bound — a span equal to the queried range is the smallest key it contains ({detail or 'no full iteration found'}); "
            "a skipped comment is silently dropped from the output")
